@@ -904,7 +904,7 @@ def formula_concurrency_checks(ctx, tmpdocs, base_docs):
     calls = [lambda: om.omml_to_latex(rad), lambda: om.omml_to_latex(frac), lambda: om.omml_to_latex(rad)]
     expected = [c() for c in calls]
     ctx.extra["formula_expected"] = expected[0][:80]
-    gated_pure_function_check(ctx, "omml_to_latex", om, calls, expected, runs=ctx.n(8, 80))
+    gated_pure_function_check(ctx, "omml_to_latex", om, calls, expected, runs=ctx.n(8, 40))
     # documents, pre-emptively
     docs = [d for d in base_docs if "formula_" in d]
     if docs:
